@@ -160,18 +160,15 @@ Fixpoint apply_due (o:options) (w:world) (evs:list event_t) : world * option err
 Definition reset_loads (w:world) (g:gconn) : gconn :=
   set_loads g (filter (fun kv => negb (mem (fst kv) (w_cs w)) && negb (mem (fst kv) (w_bat w))) (g_loads g)).
 Definition cost_empty (c:@cost T) : bool := match c with CNone => true | _ => false end.
+(* Python deletes the station/battery loads connector by connector and raises at the first connector
+   without cost and target: connectors after it keep their station loads *)
+Fixpoint finish_go (w:world) (done todo:list (string*gconn)) : list (string*gconn) * option err := match todo with
+  | [] => (done, None)
+  | (k,g) :: r => let g' := reset_loads w g in
+      if cost_empty (g_cost g') && (match g_target g' with None => true | Some _ => false end)
+      then ((done ++ (k,g') :: r)%list, Some GenericErr) else finish_go w (done ++ [(k,g')])%list r end.
 Definition finish (w:world) : world * option err :=
-  let gcs := map (fun kg => (fst kg, reset_loads w (snd kg))) (w_gcs w) in
-  let w' := {| w_time := w_time w; w_gcs := gcs; w_veh := w_veh w; w_cs := w_cs w; w_bat := w_bat w;
-               w_future := w_future w; w_desired_cnt := w_desired_cnt w; w_margin_cnt := w_margin_cnt w; w_tracker := w_tracker w |} in
-  (* Python deletes connector by connector and raises at the first connector without cost and target:
-     connectors after it keep their station loads *)
-  let fix go (done todo:list (string*gconn)) : list (string*gconn) * option err := match todo with
-    | [] => (done, None)
-    | (k,g) :: r => let g' := reset_loads w g in
-        if cost_empty (g_cost g') && (match g_target g' with None => true | Some _ => false end)
-        then ((done ++ (k,g') :: r)%list, Some GenericErr) else go (done ++ [(k,g')])%list r end in
-  let '(gcs2, e) := go [] (w_gcs w) in
+  let '(gcs2, e) := finish_go w [] (w_gcs w) in
   ({| w_time := w_time w; w_gcs := gcs2; w_veh := w_veh w; w_cs := w_cs w; w_bat := w_bat w;
       w_future := w_future w; w_desired_cnt := w_desired_cnt w; w_margin_cnt := w_margin_cnt w; w_tracker := w_tracker w |}, e).
 
